@@ -21,10 +21,12 @@ from harness.common.extract import NotRecognised
 from harness.common.fakeproc import FakeProc, reset_psutil_state
 from harness.common.shrink import ddmin
 from harness.props import c01_stat
+from harness.props import c01_kill
 
 PROP = "C01"
 DRIVER_MODULES = ["PsutilModel.Model.C01Gen", "PsutilModel.Spec.C01", "PsutilModel.Model.C01Driver",
-                  "PsutilModel.Model.C01Stat", "PsutilModel.Model.C01StatDriver"]
+                  "PsutilModel.Model.C01Stat", "PsutilModel.Model.C01StatDriver",
+                  "PsutilModel.Model.C01KillGen", "PsutilModel.Model.C01KillDriver", "PsutilModel.Spec.C01Kill"]
 NEEDS_EXT = True
 TRUSTED = [
     "C01/C02 world model: the simulated kernel (process table of incarnations, a tick clock that stamps every spawn with a strictly larger `start`, a published btime) and the fake procfs renderer of harness/props/c01.py (/proc/<pid>/stat: `pid (comm) state ppid … starttime …` per proc(5) with comm and every other field an input of the histories — harness/props/c01_stat.py render_line = Model/C01Stat.lean statLine —, /proc/stat btime line)",
@@ -39,7 +41,7 @@ ASSUMPTIONS = [
     "a PID is not recycled within one clock tick (psutil's documented assumption): every spawn advances the model clock",
 ]
 MANIFEST = {
-    "level_text": "Machine-checked Lean 4 proof over a model of psutil's process-identity machinery (Process._init/_get_ident/create_time/is_running/_raise_if_pid_reused/_send_signal/setters + _pslinux boot_time/BOOT_TIME) and a simulated kernel: by induction over ALL histories of spawn/exit/reap/PID-reuse/tick/clock-step events and interleaved psutil calls, every effect in the log was delivered to the incarnation the asking object was built for, under exactly the object's PID, signals never to PID<=0 (C01_no_wrong_owner, C01_never_group), a call adds at most one effect carrying exactly the requested signal/values (C01_exact_args, signalMap_correct), a call through an object whose incarnation lost its PID raises NoSuchProcess(pid) and leaves the log unchanged — the kernel is not even asked — (C01_recycled_raises_NSP), and a live incarnation is not refused (C01_live_signal_delivered). The kernel's permission outcome is an input of every effect (histories contain events that make the kernel refuse a PID with EPERM or EACCES and allow it again): a refused os.kill / setpriority / ioprio_set / sched_setaffinity / prlimit is logged as an attempt with its errno, so C01_no_wrong_owner and C01_exact_args also cover what psutil ASKED the kernel for; on a live incarnation exactly one attempt is made and the caller gets AccessDenied(pid) instead of a normal return (C01_live_signal_delivered / C01_live_setter_applied, parametrised by the kernel's answer); in any state a call returns normally iff one OS call was made and carried out, a refused one is AccessDenied(pid), nothing is retried (C01_outcome_truthful); a refusal sets no sticky flag (C02's theorems range over these histories). Outside the property's quantifier (characterisation, not findings): when /proc/pid/stat cannot be opened, Process._init keeps `_ident = (pid, None)` — modelled (mkObj, Kernel.hidden) and compared with the real code; for histories with such phases every logged OS call still carries the asking object's PID, never a PID <= 0, and reaches the right incarnation whenever the object's start time is known (C01_known_start_no_wrong_owner, all histories), while an object with unknown start passes the guard whenever the PID's current holder is unreadable too (C01_unknown_start_counterexample, witness replayed on the real code) — and ONLY then: over all histories with unreadable phases, for every object (start known or not) and whatever was called in between (create_time(), is_running(), process_iter() …), as soon as /proc/pid/stat of the PID opens at the moment of the call (PID free, or its new holder readable) a signal/setter through an object whose incarnation is gone raises NoSuchProcess(pid) and hands nothing to the OS, and every effect issued while the stat file opens reaches the object's own incarnation (C01_recycled_raises_NSP_readable, C01_effect_readable_right_owner); the model's premise that `_ident` is written at construction only is the translator obligation cfg_ident_writers, and the correspondence judges histories with unreadable phases by these clauses (not by the model alone). The object list of a history holds the objects built by Process(pid) and those built and yielded by process_iter() (cached handles of recycled PIDs included), with oneshot() entry/exit as explicit no-op calls. The proofs hold for the configuration extracted by the translator (cfg_good: guard before every effect, `_gone` test in _raise_if_pid_reused, BOOT_TIME written once; cfg_none_test: create_time() takes the cached BOOT_TIME whenever it `is not None` — /repo 29257b1, the repair of the former finding C02-boottime-zero), with NO hypothesis on the boot time: the initial published boot time is any number, 0 included, and clock steps go anywhere (histories from btime 0 are generated and judged by the specification like all others); for the defective configurations the counterexamples are proved (C01_gone_counterexample, C01_bootrewrite_counterexample, and — what-if, the truthiness test `BOOT_TIME or boot_time()` of the source before 29257b1 — C01_btime0_counterexample: from a published btime 0, after a clock step terminate() on the handle of a LIVE process raises NoSuchProcess). Tie: ast-extracted facts + differential run of real psutil.Process objects over a fake procfs with recording OS entry points. STAT BYTES (seeded round 5): the identity the guard compares is parsed from /proc/<pid>/stat, whose comm field is chosen by the process (any bytes: spaces, parentheses, `) `, newlines, a spelled-out fake stat tail). Model/C01Stat.lean keeps comm and all other fields per incarnation, renders the line (proc(5)), lets a history choose them at every spawn and rewrite them while the process lives, and runs the identity machine on the kernel as READ from those bytes by psutil's reader in the shape the translator extracted (facts statSearch/statNeedle/statSkip/statSplit/statCtimeIdx/statStatusIdx/createReads, obtained by following the data flow of _parse_stat_file with helper functions inlined; obligation scfg_good: last `)`, +2, whitespace split, field 19 = starttime, field 0 = state, float(...)/CLOCK_TICKS). Proved for EVERY comm (no hypothesis on it; hypothesis HistWF = the other fields are in the kernel's format): the reader recovers starttime and zombie state from the line (C01_stat_identity_any_comm), every byte-level history runs as its erasure (C01_stat_bytes_refine), hence the recycling clause, no-wrong-owner and live-delivery hold over the byte dimension (C01_recycled_raises_NSP_any_stat_bytes, C01_no_wrong_owner_any_stat_bytes, C01_live_signal_delivered_any_stat_bytes); what-if: a reader that ends the name at the first `) ` reads two different holders of a PID as the same (C01_first_rpar_space_counterexample). Correspondence: the fake procfs shows the chosen bytes (family stat_bytes, corpus stat-bytes / stat-spoofed-tail / stat-rename-live, sweep exhaustive_stat over all pairs of short names over {'(', ')', ' ', 'a'}); the specification never looks at the bytes.",
+    "level_text": "Machine-checked Lean 4 proof over a model of psutil's process-identity machinery (Process._init/_get_ident/create_time/is_running/_raise_if_pid_reused/_send_signal/setters + _pslinux boot_time/BOOT_TIME) and a simulated kernel: by induction over ALL histories of spawn/exit/reap/PID-reuse/tick/clock-step events and interleaved psutil calls, every effect in the log was delivered to the incarnation the asking object was built for, under exactly the object's PID, signals never to PID<=0 (C01_no_wrong_owner, C01_never_group), a call adds at most one effect carrying exactly the requested signal/values (C01_exact_args, signalMap_correct), a call through an object whose incarnation lost its PID raises NoSuchProcess(pid) and leaves the log unchanged — the kernel is not even asked — (C01_recycled_raises_NSP), and a live incarnation is not refused (C01_live_signal_delivered). The kernel's permission outcome is an input of every effect (histories contain events that make the kernel refuse a PID with EPERM or EACCES and allow it again): a refused os.kill / setpriority / ioprio_set / sched_setaffinity / prlimit is logged as an attempt with its errno, so C01_no_wrong_owner and C01_exact_args also cover what psutil ASKED the kernel for; on a live incarnation exactly one attempt is made and the caller gets AccessDenied(pid) instead of a normal return (C01_live_signal_delivered / C01_live_setter_applied, parametrised by the kernel's answer); in any state a call returns normally iff one OS call was made and carried out, a refused one is AccessDenied(pid), nothing is retried (C01_outcome_truthful); a refusal sets no sticky flag (C02's theorems range over these histories). Outside the property's quantifier (characterisation, not findings): when /proc/pid/stat cannot be opened, Process._init keeps `_ident = (pid, None)` — modelled (mkObj, Kernel.hidden) and compared with the real code; for histories with such phases every logged OS call still carries the asking object's PID, never a PID <= 0, and reaches the right incarnation whenever the object's start time is known (C01_known_start_no_wrong_owner, all histories), while an object with unknown start passes the guard whenever the PID's current holder is unreadable too (C01_unknown_start_counterexample, witness replayed on the real code) — and ONLY then: over all histories with unreadable phases, for every object (start known or not) and whatever was called in between (create_time(), is_running(), process_iter() …), as soon as /proc/pid/stat of the PID opens at the moment of the call (PID free, or its new holder readable) a signal/setter through an object whose incarnation is gone raises NoSuchProcess(pid) and hands nothing to the OS, and every effect issued while the stat file opens reaches the object's own incarnation (C01_recycled_raises_NSP_readable, C01_effect_readable_right_owner); the model's premise that `_ident` is written at construction only is the translator obligation cfg_ident_writers, and the correspondence judges histories with unreadable phases by these clauses (not by the model alone). The object list of a history holds the objects built by Process(pid) and those built and yielded by process_iter() (cached handles of recycled PIDs included), with oneshot() entry/exit as explicit no-op calls. The proofs hold for the configuration extracted by the translator (cfg_good: guard before every effect, `_gone` test in _raise_if_pid_reused, BOOT_TIME written once; cfg_none_test: create_time() takes the cached BOOT_TIME whenever it `is not None` — /repo 29257b1, the repair of the former finding C02-boottime-zero), with NO hypothesis on the boot time: the initial published boot time is any number, 0 included, and clock steps go anywhere (histories from btime 0 are generated and judged by the specification like all others); for the defective configurations the counterexamples are proved (C01_gone_counterexample, C01_bootrewrite_counterexample, and — what-if, the truthiness test `BOOT_TIME or boot_time()` of the source before 29257b1 — C01_btime0_counterexample: from a published btime 0, after a clock step terminate() on the handle of a LIVE process raises NoSuchProcess). Tie: ast-extracted facts + differential run of real psutil.Process objects over a fake procfs with recording OS entry points. STAT BYTES (seeded round 5): the identity the guard compares is parsed from /proc/<pid>/stat, whose comm field is chosen by the process (any bytes: spaces, parentheses, `) `, newlines, a spelled-out fake stat tail). Model/C01Stat.lean keeps comm and all other fields per incarnation, renders the line (proc(5)), lets a history choose them at every spawn and rewrite them while the process lives, and runs the identity machine on the kernel as READ from those bytes by psutil's reader in the shape the translator extracted (facts statSearch/statNeedle/statSkip/statSplit/statCtimeIdx/statStatusIdx/createReads, obtained by following the data flow of _parse_stat_file with helper functions inlined; obligation scfg_good: last `)`, +2, whitespace split, field 19 = starttime, field 0 = state, float(...)/CLOCK_TICKS). Proved for EVERY comm (no hypothesis on it; hypothesis HistWF = the other fields are in the kernel's format): the reader recovers starttime and zombie state from the line (C01_stat_identity_any_comm), every byte-level history runs as its erasure (C01_stat_bytes_refine), hence the recycling clause, no-wrong-owner and live-delivery hold over the byte dimension (C01_recycled_raises_NSP_any_stat_bytes, C01_no_wrong_owner_any_stat_bytes, C01_live_signal_delivered_any_stat_bytes); what-if: a reader that ends the name at the first `) ` reads two different holders of a PID as the same (C01_first_rpar_space_counterexample). Correspondence: the fake procfs shows the chosen bytes (family stat_bytes, corpus stat-bytes / stat-spoofed-tail / stat-rename-live, sweep exhaustive_stat over all pairs of short names over {'(', ')', ' ', 'a'}); the specification never looks at the bytes. EVERY kill(2) (seeded round C01-8): the translator lists every call site through which a function of the package hands a PID to os.kill or to a package function that transitively reaches it (the probe os.kill(pid, 0) of _psposix.pid_exists behind psutil.pid_exists(n) and Process.wait() included), with the sign classes {negative, zero, positive} of that PID for which the guards in front of the call let control through (facts killSites / killRoots); Model/C01Kill.lean walks that graph, and for EVERY integer handed to any public entry point every kill(2) issued has a positive pid argument, whatever the signal (obligation kcfg_good; C01_no_group_kill_any_entry, C01_pid_exists_never_probes_group; what-if C01_probe_before_guard_counterexample); correspondence family `entry`: psutil.pid_exists(n) / Process(n) for structured, exhaustively enumerated small and random integers of both signs on simulated process tables with a recorder that logs every os.kill, signal 0 included, judged in Lean (noGroupKillB) on the observed pid arguments.",
     "level_note": "Trusted: Lean kernel + {propext, Classical.choice, Quot.sound}; the translator; the correspondence harness; the simulated kernel/fake procfs; atomic calls (the inherent check-then-kill window is outside the model); exact arithmetic for create times; hypotheses: no PID recycled within one clock tick and (main theorems) /proc/pid/stat always readable — none on the boot time (any value, 0 included, any clock step); permission refusals attached to the PID, ESRCH decided by the process table alone.",
     "technique": "Lean 4 invariant proof by induction over event histories (ghost incarnation ids) + translator-fed proof obligation + differential correspondence on generated and exhaustively enumerated short histories",
     "design_ref": "DESIGN.md §5 C01",
@@ -524,6 +526,9 @@ def facts(snap, F):
               "functions of the package that store to an attribute named `_ident` (file:Class.function)")
     # C01-only: the reader of /proc/<pid>/stat (obligation `scfg_good`; Model/C01Stat.lean runs on it)
     c01_stat.stat_facts(snap, F)
+    # C01-only: every os.kill call site of the package with the guards that dominate it (obligation `kcfg_good`;
+    # Model/C01Kill.lean walks it)
+    c01_kill.kill_facts(snap, F)
 
 
 # ------------------------------------------------------------------------------ simulated kernel
@@ -577,6 +582,10 @@ class SimKernel:
 KERNEL_OPS = ("spawn", "exit", "reap", "tick", "setbtime", "perm", "hide", "stat")
 
 
+def line_ok(hist):
+    return all(c01_stat.line_wf(c01_stat.line_of(o)) for o in hist["ops"] if o["op"] in ("spawn", "stat"))
+
+
 def hyp_of(hist):
     """do the theorems' hypotheses hold for this history?  (`HistOK true`: /proc/<pid>/stat always readable — no `hide on`
     event, flag cleared by the generators of such families; permission changes, clock steps and a published boot time of
@@ -597,6 +606,12 @@ def judge_as(hist, prop):
         return prop
     if prop == "C01" and any(o["op"] == "hide" for o in hist["ops"]):
         return "C01h"
+    if prop == "C02" and any(o["op"] == "hide" for o in hist["ops"]) and line_ok(hist) and hist.get("hyp_b", True):
+        # C02 over histories with unreadable stat files (`HistOKb`): the clauses that are theorems there — "C02h":
+        # is_running() False once the object's incarnation left the table and the PID's stat file opens at the moment
+        # of the call (C02_not_running_after_gone_readable), never True again after False, a True == means same PID,
+        # equal hashes and — when one of the two has a start time — the same process (C02_eq_any_readability)
+        return "C02h"
     return "none"
 
 
@@ -771,6 +786,7 @@ class Impl:
         self.objs = []
         self.idx = {}        # id(Process object) -> index in self.objs (objects are kept alive by self.objs)
         self.ghosts = []     # per object: owner of its PID at the moment the implementation built it
+        self.blind = []      # per object: its PID was held and /proc/<pid>/stat did not open at that moment
         self.last_aux = None
         self.cms = {}
         self.log = []
@@ -813,6 +829,7 @@ class Impl:
                "readable": pid not in self.kern.procs or pid not in self.kern.hidden}
         if j is not None and j < len(self.objs):
             aux["pid2"], aux["ghost2"] = self.objs[j].pid, self.ghosts[j]
+            aux["blind"], aux["blind2"] = self.blind[i], self.blind[j]
         return aux
 
     def _handle(self, p):
@@ -820,6 +837,7 @@ class Impl:
         if i is None:
             self.objs.append(p)
             self.ghosts.append(self.kern.owner(p.pid))
+            self.blind.append(p.pid in self.kern.procs and p.pid in self.kern.hidden)   # built while its stat file did not open
             i = self.idx[id(p)] = len(self.objs) - 1
         return i
 
@@ -1000,6 +1018,15 @@ def spec_violation(op, im, effs, sp, prop):
     """None, or a description of how (outcome, effects) of the implementation break what the
     specification printed by the driver promises for this call."""
     k = op["op"]
+    if prop == "C02h":
+        if k == "is_running" and "bool" in sp and sp.get("readable") and not sp["bool"] and not sp.get("may_raise"):
+            if im != {"kind": "bool", "v": False}:
+                return "is_running must be False: the object's incarnation left the process table and the PID's stat file opens"
+        if k == "eq" and "bool" in sp and im == {"kind": "bool", "v": True}:
+            if not sp.get("same_pid", True):
+                return "== is True for objects of different PIDs"
+            if sp.get("known") and not sp["bool"]:
+                return "== is True for objects built for different processes (one of them has a start time)"
     if prop == "C02" or prop is None:
         if k in ("is_running", "eq") and "bool" in sp:
             if im != {"kind": "bool", "v": sp["bool"]}:
@@ -1111,11 +1138,11 @@ def after_drift(result, n0, prop, sticky):
     concrete failing input, the rest of the history is judged by the specification evaluated on the implementation's
     own objects: ghost of an object = owner of its PID when the implementation built it (C02_ghost_meaning /
     C02_iter_ghost_meaning), recorded by `Impl._handle`; `owner` = owner of the PID when the call was made."""
-    if prop not in ("C01", "C01h", "C02"):
+    if prop not in ("C01", "C01h", "C02", "C02h"):
         return None
-    weak = prop == "C01h"
+    weak = prop in ("C01h", "C02h")
     if weak:
-        prop = "C01"
+        prop = prop[:3]
     depth = {}
     sticky = dict(sticky)
     for n, (o, im, ie, mo, me, sp, aux) in enumerate(result["rows"]):
@@ -1129,7 +1156,19 @@ def after_drift(result, n0, prop, sticky):
         why = None
         listed = aux["owner"] is not None and aux["owner"] == aux["ghost"]
         speaks = (not weak) or aux.get("readable", False)
-        if prop == "C02":
+        if prop == "C02" and weak:
+            if k == "is_running" and im.get("kind") == "bool":
+                if im["v"] and not listed and aux.get("readable", False):
+                    why = "is_running must be False: the object's incarnation left the process table and the PID's stat file opens"
+                elif im["v"] and sticky.get(o["i"]) is False:
+                    why = "is_running() became True again after it had been False"
+                sticky[o["i"]] = im["v"]
+            if k == "eq" and im.get("kind") == "bool" and im["v"] and "pid2" in aux:
+                if aux["pid"] != aux["pid2"]:
+                    why = "== is True for objects of different PIDs"
+                elif aux["ghost"] != aux["ghost2"] and not (aux.get("blind") and aux.get("blind2")):
+                    why = "== is True for objects built for different processes (one of them was built while its stat file opened)"
+        elif prop == "C02":
             if k == "is_running" and im.get("kind") == "bool":
                 if im["v"] != listed:
                     why = "is_running must be %s for this incarnation" % listed
@@ -1178,7 +1217,7 @@ def first_problem(result, prop, drift=None):
             # status theorems speak about str(p) taken outside a block
             continue
         why = spec_violation(o, im, ie, sp, prop)
-        if why is None and o["op"] == "is_running" and im.get("kind") == "bool" and prop in ("C02", None):
+        if why is None and o["op"] == "is_running" and im.get("kind") == "bool" and prop in ("C02", "C02h", None):
             if im["v"] and sticky.get(o["i"]) is False:
                 why = "is_running() became True again after it had been False"
             sticky[o["i"]] = im["v"]
@@ -1202,6 +1241,12 @@ def first_problem(result, prop, drift=None):
             for b in range(n):
                 if sp["same"][a][b] and ip["hash"][a] != ip["hash"][b]:
                     return ("spec", None, ip, mp, sp, "equal objects %d,%d hash differently" % (a, b))
+    if prop == "C02h":
+        # C02_eq_any_readability: objects that compare equal hash alike (judged on the implementation's own answers)
+        for a in range(n):
+            for b in range(n):
+                if ip["eq"][a][b] and ip["hash"][a] != ip["hash"][b]:
+                    return ("spec", None, ip, mp, sp, "objects %d,%d compare equal but hash differently" % (a, b))
     if ip["eq"] != mp["eq"]:
         return ("model", None, ip, mp, sp, "pairwise == differs from the model")
     for a in range(n):
@@ -2297,6 +2342,10 @@ def correspond_for(ctx, res, prop, driver_file, n_quick, n_thorough):
                              "" if ctx.tier == "quick" else "; all well-indexed histories of length 3..6 over {spawn 5, spawn 7, reap 5, "
                              "Process(5), process_iter(), terminate(0), terminate(1), is_running(0), is_running(1), ==(0,1)} containing "
                              "a process_iter() (handles from process_iter() on two PIDs)"))
+        if prop == "C01":
+            # public calls with a caller-chosen integer (psutil.pid_exists(n), Process(n)): the pid argument of EVERY
+            # os.kill they make, signal 0 included (Model/C01Kill.lean, Driver/C01Kill.lean)
+            total_lines += c01_kill.correspond_entry(ctx, res, impl)
         res.extra["driver_lines"] = total_lines
         res.extra["clock_ticks"] = impl.clk
     finally:
@@ -2320,6 +2369,12 @@ def _fails(ctx, impl, hist, prop, driver_file):
 def shrink_for(ctx, d, prop, driver_file):
     inp = d["input"]
     ops = inp.get("ops")
+    if inp.get("entry") and prop == "C01":
+        impl = Impl(ctx)
+        try:
+            return c01_kill.shrink_entry(ctx, impl, d)
+        finally:
+            impl.close()
     if not ops:
         return d
     impl = Impl(ctx)
@@ -2344,6 +2399,12 @@ def shrink(ctx, d):
 
 def replay_for(ctx, rp, prop, driver_file):
     inp = rp.get("input") or {}
+    if inp.get("entry") and prop == "C01":
+        impl = Impl(ctx)
+        try:
+            return c01_kill.fails(ctx, impl, inp["entry"]) is not None
+        finally:
+            impl.close()
     if not inp.get("ops"):
         return True
     impl = Impl(ctx)
